@@ -1,18 +1,17 @@
 (** C20 — HTTP/2 and HTTP/1.1 clients get the same answer.  Statements only.
 
     Connection-level (hop-by-hop) parts of an answer, dropped by [normalise]: the HTTP version and the headers
-    [connection], [keep-alive], [content-length], [alt-svc], [transfer-encoding] ([hop]).  Everything else —
-    status, every other header (with multiplicity and order), body bytes — is compared. *)
+    [connection], [keep-alive], [proxy-connection], [transfer-encoding], [upgrade], [te] (the connection-specific
+    fields of RFC 9113 8.2.2, which HTTP/2 must not carry), [content-length] and [alt-svc] ([hop]).  Everything
+    else — status, every other header (with multiplicity and order), body bytes — is compared. *)
 From KV Require Import Bytes RustInt Range CacheControl Cache CacheProofs Protocols ProtocolsProofs.
 Open Scope N_scope.
 
 (** [send] alone: for every layer-4 response, request method, [sanitize_data], error page, TLS-or-plain HTTP/1
     connection and [alt-svc] value, and every Package chain that is oblivious to the version and to connection-level
-    headers: unless the h2 crate refuses the head (a connection-specific header in it), the two protocols' answers
-    differ at most in the version and in [hop] headers. *)
+    headers: the two protocols' answers differ at most in the version and in [hop] headers. *)
 Theorem send_parity : forall checked error_page pkg, pkg_oblivious pkg ->
   forall secure1 alt m sd r,
-    send checked error_page pkg H2 true alt m sd r <> Ok WRefused ->
     onorm (send checked error_page pkg H1 secure1 alt m sd r) = onorm (send checked error_page pkg H2 true alt m sd r).
 Proof. exact ProtocolsProofs.send_parity. Qed.
 
@@ -24,8 +23,6 @@ Theorem protocol_parity :
          checked error_page pkg alt sanitize encode hversion,
     pkg_oblivious pkg ->
     forall secure1 st now r0,
-      answer hstate compute cache_on ims_on parse_ims sanitize_ok prime negotiate vary_tuple vary_header
-             checked error_page pkg alt sanitize encode hversion H2 true st now r0 <> Ok WRefused ->
       onorm (answer hstate compute cache_on ims_on parse_ims sanitize_ok prime negotiate vary_tuple vary_header
                     checked error_page pkg alt sanitize encode hversion H1 secure1 st now r0)
       = onorm (answer hstate compute cache_on ims_on parse_ims sanitize_ok prime negotiate vary_tuple vary_header
@@ -41,28 +38,23 @@ Proof. exact send_head. Qed.
 
 Theorem head_parity : forall checked error_page pkg, pkg_oblivious pkg ->
   forall secure1 alt sd r,
-    send checked error_page pkg H2 true alt M_GET sd r <> Ok WRefused ->
     onorm (send checked error_page pkg H1 secure1 alt M_HEAD sd r)
       = odrop (onorm (send checked error_page pkg H2 true alt M_GET sd r)) /\
     onorm (send checked error_page pkg H2 true alt M_HEAD sd r)
       = odrop (onorm (send checked error_page pkg H2 true alt M_GET sd r)).
 Proof. exact head_parity_lemma. Qed.
 
-(** the hypotheses of the parity theorems are met by the harness's Package menu, and the h2 crate accepts every head
-    without connection-specific headers *)
+(** the hypothesis of the parity theorems is met by the harness's Package menu *)
 Theorem pkg_menu_is_oblivious : forall ops,
   Forall (fun o => hop (pkg_op_name o) = false) ops -> pkg_oblivious (pkg_menu ops).
 Proof. exact pkg_menu_oblivious. Qed.
 
-Theorem h2_accepts_clean_heads : forall h, conn_free h -> h2_refuses h = false.
-Proof. exact h2_accepts. Qed.
-
-(** Without the acceptance hypothesis parity is false: a handler that leaves a connection-specific header on its
-    response is answered over HTTP/1.1 and refused by the h2 crate (the stream is reset). *)
-Theorem parity_without_h2_acceptance_refuted :
-  exists r, onorm (send false (fun _ => r) (pkg_menu []) H1 true None M_GET (Ok None) r)
-            <> onorm (send false (fun _ => r) (pkg_menu []) H2 true None M_GET (Ok None) r).
-Proof. exists (mkResp V11 200 [(H_UPGRADE, B "websocket")] (B "x")). vm_compute. discriminate. Qed.
+(** The head the (repaired) HTTP/2 arm hands to the h2 crate never contains what h2's [check_headers] refuses: every
+    request is answered on HTTP/2 too.  (Before the repair a handler response with e.g. [keep-alive: timeout=5] was
+    answered over HTTP/1.1 and never over HTTP/2 — the h2 stream was reset.) *)
+Theorem h2_never_refuses : forall checked error_page pkg p secure alt m sd r,
+  send checked error_page pkg p secure alt m sd r <> Ok WRefused.
+Proof. exact send_never_refused. Qed.
 
 Section C20_streams.
   Variable hstate : Type.
@@ -144,6 +136,22 @@ Example parity_instance :
              (B "content-range", B "bytes 2-5/10"); (B "content-length", B "4");
              (B "referrer-policy", B "no-referrer"); (B "server", B "Kvarn"); (B "connection", B "keep-alive")]
             (B "2345"))).
+Proof. split; vm_compute; reflexivity. Qed.
+
+(** a handler that leaves connection-specific headers and its own (stale) content-length on a compressed page:
+    HTTP/1.1 corrects the length and manages [connection] itself, HTTP/2 drops the connection-specific fields and
+    corrects the length; what remains is equal *)
+Example connection_headers_instance :
+  let r := mkResp V11 200 [(B "keep-alive", B "timeout=5"); (B "content-length", B "200"); (B "upgrade", B "h2c");
+                           (B "content-encoding", B "gzip")] (B "abc") in
+  send false (fun _ => r) ex_pkg H2 true None M_GET (Ok None) r
+    = Ok (WResp (mkResp V2 200 [(B "content-encoding", B "gzip"); (B "accept-ranges", B "bytes"); (B "content-length", B "3");
+                                (B "referrer-policy", B "no-referrer"); (B "server", B "Kvarn")] (B "abc")))
+  /\ send false (fun _ => r) ex_pkg H1 true None M_GET (Ok None) r
+    = Ok (WResp (mkResp V11 200 [(B "keep-alive", B "timeout=5"); (B "upgrade", B "h2c"); (B "content-encoding", B "gzip");
+                                 (B "accept-ranges", B "bytes"); (B "content-length", B "3");
+                                 (B "referrer-policy", B "no-referrer"); (B "server", B "Kvarn");
+                                 (B "connection", B "keep-alive")] (B "abc"))).
 Proof. split; vm_compute; reflexivity. Qed.
 
 (** the stream contract is satisfiable: a host whose pages are a function of the path *)
